@@ -1,3 +1,4 @@
+import copy
 import numpy as np
 import os
 from typing import Optional
@@ -169,7 +170,7 @@ class Fitness:
 
         if self.store_history:
 
-            self.parameters_history_list.append(parameters)
+            self.parameters_history_list.append(copy.copy(parameters))
             self.log_likelihood_history_list.append(log_likelihood)
 
         if self.convert_to_chi_squared:
